@@ -35,6 +35,8 @@ CHECKS = {
             "trusted: z3, substrate (validated by trace replay), CPython; argparse, exit status and files on disk are outside the claim"),
     "C19": ("same exploration and record as C13: every recorded HYPERLINK formula is parsed (sheet and row are concrete parts of the structured string) and must lead to the In-Out row on which that very transaction was written, carry no link when the date filter hides the transaction (which rows are hidden is decided by the solver), and every Summary line must link to the first detail row of that asset-year; exhaustive within the bounds",
             "trusted: z3, substrate (validated by trace replay), CPython"),
+    "C20": ("bounded symbolic execution of compute_tax (JP plugin) for two assets followed by the real tax_report_jp generator: the calendar year of every transaction of asset B1 is a solver variable over 2019-2022 realised exhaustively (sparse years, disposal-only years, table order different from year order; also timestamps within hours of New Year at non-UTC offsets), amounts and prices symbolic; the set of asset-year and summary sheets, every transaction row (month, day, client, type, amounts), the opening-balance formulas (must reference the closing cells of the same asset's most recent earlier year sheet, else 0) and the summary lines' references are compared; en and kl; exhaustive within the bounds",
+            "trusted: z3, substrate (validated by trace replay), CPython; formulas are checked for what they reference, not evaluated; donations are outside (the generator formats them through float)"),
 }
 NA = {
     "C18": "about imports and OS-level effects (sockets, processes, files); every relevant input is concrete, so there is nothing for a solver to quantify over - the deciding step would be an import scan / audit hook, which is outside this technique family",
@@ -55,7 +57,7 @@ def main():
         "engines": [{"name": "symx", "path": "symx/", "serves_properties": list(CHECKS), "kind_free_text": "custom symbolic executor for the real rp2 Python modules: proxy value types (Decimal/datetime/date/float/str) over integer polynomials, eager branch decisions with z3 (cvc5 as second opinion), DFS by re-execution, concrete replay on the uninstrumented code"}],
         "checks": checks,
         "not_applicable": na,
-        "notes": "fix: commits in /repo (b9ef9cd, 663eb25, df34426, df33c02, 5bbebf1, a192f0f, a566a84) repair defects found by these checks; see known_findings.json and DESIGN.md",
+        "notes": "fix: commits in /repo (b9ef9cd, 663eb25, df34426, df33c02, 5bbebf1, a192f0f, a566a84, 00c9cfc, 2ebb739) repair defects found by these checks; see known_findings.json and DESIGN.md",
     }
     with open("MANIFEST.json", "w", encoding="utf-8") as f:
         json.dump(m, f, indent=1)
